@@ -115,27 +115,45 @@ def json_default(x):
 # --------------------------------------------------------------------------
 # exception classification
 # --------------------------------------------------------------------------
+_TB_RE = None
+
+
+def _frames(e):
+    """(filename, lineno, name, line) frames, outermost first; joblib keeps the worker's
+    traceback only as text in __cause__, so that text is parsed and appended."""
+    global _TB_RE
+    import re
+
+    frames = [(fr.filename, fr.lineno, fr.name, fr.line or "") for fr in traceback.extract_tb(e.__traceback__)]
+    cause = getattr(e, "__cause__", None)
+    if cause is not None and "Traceback (most recent call last)" in str(cause):
+        if _TB_RE is None:
+            _TB_RE = re.compile(r'File "([^"]+)", line (\d+), in (\S+)\n\s+([^\n]*)')
+        frames += [(m.group(1), int(m.group(2)), m.group(3), m.group(4)) for m in _TB_RE.finditer(str(cause))]
+    return frames
+
+
 def exc_info(e: BaseException) -> dict:
     """Describe an exception: type, message, innermost frame inside mokapot,
     and whether it was created by a `raise` statement in mokapot's own source."""
-    tb = traceback.extract_tb(e.__traceback__)
+    tb = _frames(e)
     repo = str(REPO)
     inner_mokapot = None
     for fr in tb:
-        if fr.filename.startswith(repo + os.sep + "mokapot"):
+        if fr[0].startswith(repo + os.sep + "mokapot"):
             inner_mokapot = fr
     last = tb[-1] if tb else None
     explicit = bool(
         last is not None
-        and last.filename.startswith(repo + os.sep + "mokapot")
-        and (last.line or "").lstrip().startswith("raise")
+        and last[0].startswith(repo + os.sep + "mokapot")
+        and last[3].lstrip().startswith("raise")
     )
     return {
         "type": type(e).__name__,
         "msg": str(e)[:300],
-        "frame": (inner_mokapot.name if inner_mokapot else None),
-        "file": (os.path.basename(inner_mokapot.filename) if inner_mokapot else None),
-        "line": (inner_mokapot.lineno if inner_mokapot else None),
+        "frame": (inner_mokapot[2] if inner_mokapot else None),
+        "file": (os.path.basename(inner_mokapot[0]) if inner_mokapot else None),
+        "line": (inner_mokapot[1] if inner_mokapot else None),
         "explicit": explicit,
         "in_mokapot": inner_mokapot is not None,
     }
